@@ -18,7 +18,8 @@ LABELS = {
     "C08": {"panic", "err", "prefix", "final_out", "unsettled", "constructor"},
     "C09": {"window", "leak", "spin", "probe", "misdirected", "close_verdict", "verdict_side"},
     "C12": {"tags_ref", "tagmap"},
-    "C19": {"synclaw", "panic", "prefix", "final_out", "window", "leak", "spin", "probe", "misdirected", "close_verdict", "tags_ref", "tagmap", "unsettled", "constructor"},
+    "C10": {"fn_out", "fn_tags", "panic", "err", "prefix", "final_out", "unsettled", "constructor"},
+    "C19": {"synclaw", "eof", "fn_out", "fn_tags", "panic", "prefix", "final_out", "window", "leak", "spin", "probe", "misdirected", "close_verdict", "tags_ref", "tagmap", "unsettled", "constructor"},
 }
 
 ID = {"kind": "identity", "arg": 0}
@@ -119,6 +120,79 @@ def block_table(thorough):
     return t
 
 
+def F(kind, **p):
+    return {"kind": kind, "p": p or {"x": 0}}
+
+
+def fn_table(thorough):
+    """Blocks with an independent executable specification (BlockFns.tla)."""
+    t = []
+    def E(block, params, kind, n, fn, **kw):
+        e = B(block, params, kind, n, **kw)
+        e["fn"] = fn
+        t.append(e)
+    E("AddConst<Big>", {"val": 1000}, "ramp", 9, F("lin", coef=[[1]], const=[1000]), sync=True, big=True, sched=True)
+    E("AddConst<Float>", {"val": 3}, "small", 40, F("lin", coef=[[1]], const=[3]), sync=True)
+    E("add_const<Float>", {"val": 3}, "small", 40, F("lin", coef=[[1]], const=[3]), sync=True)
+    E("MultiplyConst<Float>", {"val": 3}, "small", 40, F("lin", coef=[[3]], const=[0]), sync=True)
+    E("Add<Float>", {}, "small", 40, F("lin", coef=[[1, 1]], const=[0]), sync=True, kinds=["small", "small"])
+    E("Add<Big>", {}, "ramp", 9, F("lin", coef=[[1, 1]], const=[0]), sync=True, big=True, kinds=["ramp", "pos"])
+    E("Tee<Big>", {}, "ramp", 9, F("tee"), sync=True, big=True, sched=True)
+    E("Tee<u8>", {}, "bytes", 40, F("tee"), sync=True)
+    E("XorConst<u8>", {"val": 90}, "bytes", 60, F("xor", val=90), sync=True)
+    E("Xor<u8>", {}, "bytes", 60, F("xor", val=0), sync=True, kinds=["bytes", "bytes"])
+    E("BinarySlicer", {}, "small", 60, F("slicer"), sync=True)
+    E("ComplexToMag2", {}, "small", 40, F("mag2"), sync=True)
+    E("FloatToComplex", {}, "small", 40, F("f2c"), sync=True, kinds=["small", "small"])
+    E("NrziDecode", {}, "bits", 80, F("nrzi"), sync=True)
+    masks = [(33, 0, 16), (5, 3, 4), (1, 0, 1), (9, 7, 5)] + ([(0x21, 0x1ffff, 16), (3, 0, 2), (18, 1, 6)] if thorough else [])
+    for mask, seed, ln in masks:
+        E("Descrambler", {"mask": mask, "seed": seed, "len": ln}, "bits", 70, F("descramble", mask=mask, seed=seed, len=ln), sync=True)
+    codes = [([1, 0, 1], 0), ([1, 1, 0], 1), ([1], 0), ([0, 1, 1, 0], 2)] + ([([0], 0), ([1, 0], 1), ([1, 1, 1, 1], 0)] if thorough else [])
+    for code, allowed in codes:
+        E("CorrelateAccessCode", {"code": code, "allowed": allowed}, "bits", 60, F("corr", code=code, allowed=allowed), sync=True)
+        E("CorrelateAccessCodeTag", {"code": code, "allowed": allowed}, "bits", 60, F("corrtag", code=code, allowed=allowed), sync=True)
+    for d in ([0, 1, 2, 5] if not thorough else [0, 1, 2, 3, 4, 5]):
+        E("Delay<Big>", {"delay": d}, "ramp", 8, F("delay", delay=d), big=True, sched=(d in (0, 2)))
+        E("Skip<Big>", {"skip": d}, "ramp", 8, F("skip", skip=d), big=True, sched=(d in (0, 2)))
+    E("Delay<u8>", {"delay": 3}, "bytes", 60, F("delay", delay=3))
+    E("Skip<u8>", {"skip": 70}, "bytes", 60, F("skip", skip=70))
+    pairs = [(1, 2), (2, 1), (3, 2), (2, 3), (4, 6), (5, 1), (1, 1)] + ([(i, d) for i in range(1, 7) for d in range(1, 7)] if thorough else [])
+    for i, d in dict.fromkeys(pairs):
+        E("RationalResampler<Big>", {"interp": i, "deci": d}, "ramp", 8, F("resample", interp=i, deci=d), big=True, sched=((i, d) in ((1, 2), (3, 2))))
+    E("RationalResampler<u8>", {"interp": 5, "deci": 3}, "bytes", 900, F("resample", interp=5, deci=3))
+    E("RtlSdrDecode", {}, "bytes", 61, F("rtlsdr"), extra={"out_scale": 125})
+    E("VectorSource<Big>", {"repeat": 1}, "ramp", 9, F("vecsource", repeat=1), big=True)
+    E("VectorSource<Big>", {"repeat": 3}, "ramp", 3, F("vecsource", repeat=3), big=True)
+    E("VectorSource<u8>", {"repeat": 2}, "bytes", 30, F("vecsource", repeat=2))
+    E("VecToStream<u8>", {}, "bytes", 12, F("v2s"))
+    E("StreamToPdu<u8>", {"max": 20, "tail": 2}, "bytes", 80, F("s2pdu", max=20, tail=2), extra={"force_tags": "burst"})
+    E("StreamToPdu<u8>", {"max": 5, "tail": 0}, "bytes", 80, F("s2pdu", max=5, tail=0), extra={"force_tags": "burst"})
+    E("BurstTagger<u8>", {"threshold": 0.5}, "bytes", 60, F("burst", threshold=0), sync=True, kinds=["bytes", "small"])
+    E("ToText<u8>", {}, "bytes", 30, F("totext"))
+    E("ToText2<u8>", {}, "bytes", 25, F("totext"), kinds=["bytes", "bytes"])
+    E("FftStream", {"size": 4}, "small", 43, F("fftframes", size=4))
+    return t
+
+
+def user_table():
+    """Harness-defined derive(Block) blocks (C19)."""
+    t = []
+    def E(block, kind, n, fn, **kw):
+        e = B(block, {}, kind, n, **kw)
+        e["fn"] = fn
+        t.append(e)
+    E("U11", "ramp", 9, F("lin", coef=[[1]], const=[1]), sync=True, big=True, sched=True, tagmap=ID)
+    E("U21", "ramp", 9, F("lin", coef=[[1, 10]], const=[0]), sync=True, big=True, tagmap=ID, kinds=["ramp", "pos"], lens=[9, 7])
+    E("U32", "ramp", 9, F("lin", coef=[[1, 10, 100], [10, 0, 1]], const=[0, 0]), sync=True, big=True, tagmap=ID,
+      kinds=["ramp", "pos", "small"], lens=[9, 8, 10])
+    E("U13", "bytes", 60, F("lin", coef=[[1], [1], [-1]], const=[0, 1000, 255]), sync=True, tagmap=ID)
+    E("T21", "ramp", 9, F("lin", coef=[[1, 10]], const=[0]), sync=True, big=True, tagmap={"kind": "identity", "arg": 0, "src": 2},
+      kinds=["ramp", "pos"])
+    E("P12", "bytes", 41, F("p12"))
+    return t
+
+
 def tlc_schedules(ctx, depth, total, cap=4):
     cfg = ctx.path("bc.cfg")
     with open(cfg, "w") as f:
@@ -141,9 +215,13 @@ def make_specs(ctx, table, scheds, nrandom, tags, sched_stride, probes_close=Tru
         gid += 1
         base = {k: v for k, v in ent.items() if k not in ("sched", "minwin", "close_ok")}
         base["tags"] = tags if ent["tagmap"]["kind"] != "none" or tags == "none" else "none"
+        if ent.get("force_tags"):
+            base["tags"] = ent["force_tags"]
+        if ent.get("fn"):
+            base["log_inputs"] = True
         base["data_seed"] = ctx.seed * 7919 + gid
         base["gid"] = gid
-        specs.append(dict(base, mode="ref", id=f"{gid}:ref", seed=1, log_inputs=False))
+        specs.append(dict(base, mode="ref", id=f"{gid}:ref", seed=1))
         k = 0
         if ent["sched"] and scheds:
             for si in range((gid * 7) % sched_stride, len(scheds), sched_stride):
@@ -303,7 +381,8 @@ def run(ctx, table=None, labels=None):
     prop = ctx.prop
     labels = labels or LABELS[prop]
     thorough = ctx.thorough()
-    table = table or block_table(thorough)
+    if table is None:
+        table = {"C10": fn_table, "C19": lambda t: user_table()}.get(prop, block_table)(thorough)
     if thorough:
         scheds = tlc_schedules(ctx, 7, 6)
         stride, nrandom = 3, 24
@@ -311,6 +390,8 @@ def run(ctx, table=None, labels=None):
         scheds = tlc_schedules(ctx, 6, 5)
         stride, nrandom = 9, 8
     tags = "sparse" if prop in ("C12", "C19") else "none"
+    if prop == "C19":
+        nrandom *= 3
     specs = make_specs(ctx, table, scheds, nrandom, tags, stride)
     if prop in ("C12", "C19"):
         specs += [dict(s, tags="dense", id=s["id"] + "d", gid=s["gid"] + 10000, data_seed=s["data_seed"] + 1)
